@@ -683,8 +683,14 @@ def monitor(case, obs, steps, r):
                              task=t, marks=sorted(marks))
                 elif t in soft or sd:
                     _cnt(r, 'mon:run-setup-of-ignored')
+                    failed_hard = [d for d in sp['hard_deps'][t] if seen.get(d) in ('fail', 'unmet', 'error', 'save-missing')]
                     if out in EXECUTED:
                         viol(i, 'ignore-skips-setup', '%s has an ignored setup-task but was executed (%s)' % (names[t], out),
+                             task=t, marks=sorted(marks))
+                    elif out == 'unmet' and not failed_hard:
+                        # skipped means skipped: a failure report is only legitimate for a failed task_dep
+                        viol(i, 'ignore-skips-setup', '%s has an ignored setup-task and no failed task_dep but was reported '
+                                                      'as a failure (%s) instead of being skipped' % (names[t], out),
                              task=t, marks=sorted(marks))
                 elif out == 'ignored':
                     viol(i, 'ignore-others', '%s was reported ignored but neither it nor a dependency is ignored'
